@@ -22,6 +22,10 @@ func init() {
 		e.shapeDef(s, reg, "cluster.handleChanges", "handleChangesShape")
 		e.shapeDef(s, reg, "cluster.handleWatchEvents", "handleWatchEventsShape")
 		e.shapeDef(s, reg, "calculateChanges", "calculateChangesShape")
+		e.shapeDef(s, reg, "Registry.Monitor", "monitorShape")
+		e.shapeDef(s, reg, "cluster.reload", "reloadShape")
+		e.shapeDef(s, reg, "cluster.getCurrent", "getCurrentShape")
+		c13OptionalShape(e, s, reg, "cluster.join", "joinShape")
 		e.shapeDef(s, res+"subset.go", "subset", "subsetShape")
 		e.constDef(s, res+"resolver.go", "subsetSize", "subsetSize")
 		e.shapeDef(s, res+"discovbuilder.go", "discovBuilder.Build", "discovBuildShape")
@@ -40,6 +44,15 @@ func init() {
 		e.c13StmtDef(s, kube, "diff", "kubeDiffStmts")
 		e.c13StmtDef(s, kube, "EventHandler.notify", "kubeNotifyStmts")
 	})
+}
+
+// c13OptionalShape: the skeleton of a function that only exists in one form of the code (`[]` when absent).
+func c13OptionalShape(e *emitter, s *source, rel, goName, leanName string) {
+	if s.findFunc(rel, goName) == nil {
+		e.stringList(leanName, "skeleton of `"+goName+"` in "+rel+" (absent)", nil)
+		return
+	}
+	e.shapeDef(s, rel, goName, leanName)
 }
 
 // c13Stmts lists the statements of a (small, semantically critical) function in normalised source form:
